@@ -61,6 +61,22 @@ class StubOptimiser(pints.Optimiser):
         return False
 
 
+class BreakingStub(StubOptimiser):
+    """the SECOND optimiser that is instantiated raises when asked for points (a run that breaks inside pints)"""
+    count = 0
+
+    def __init__(self, x0, sigma0=None, boundaries=None):
+        super(BreakingStub, self).__init__(x0, sigma0, boundaries)
+        BreakingStub.count += 1
+        self._breaks = BreakingStub.count == 2
+
+    def ask(self):
+        if self._breaks:
+            raise RuntimeError('this run breaks')
+        return super(BreakingStub, self).ask()
+
+
+
 def make_prior(names):
     pri = []
     for nm in names:
@@ -202,6 +218,29 @@ def replay_case(arg):
                 if not np.allclose(np.asarray(t['Estimate'], dtype=float), x0[run - 1], rtol=0, atol=0, equal_nan=True):
                     fail('ResultTable', 'estimates', dict(run=run))
                     break
+        cnt['evaluations'] = cnt.get('evaluations', 0) + 1
+        # a run that BREAKS after a run that succeeded: its rows carry its own run number and NaN estimates / score
+        # (documented), not the numbers of the run before it
+        with warnings.catch_warnings():
+            warnings.simplefilter('ignore')
+            oc3 = chi.OptimisationController(post, seed=7)
+            oc3.set_n_runs(3)
+            oc3.set_parallel_evaluation(False)
+            BreakingStub.count = 0
+            oc3.set_optimiser(BreakingStub)
+            t3 = oc3.run(n_max_iterations=1)
+            x3 = np.asarray(post.sample_initial_parameters(n_samples=3, seed=7), dtype=float)
+        for run in (1, 2, 3):
+            t = t3[t3['Run'] == run]
+            est, sc = np.asarray(t['Estimate'], dtype=float), np.asarray(t['Score'], dtype=float)
+            if len(t) != n:
+                fail('ResultTable', 'rows_with_a_broken_run', dict(run=run, got=len(t), expected=n))
+                break
+            if run == 2:
+                if not (np.all(np.isnan(est)) and np.all(np.isnan(sc))):
+                    fail('ResultTable', 'broken_run_not_nan', dict(run=run, estimates=est[:4].tolist(), score=sc[:1].tolist()))
+            elif not np.allclose(est, x3[run - 1], rtol=0, atol=0, equal_nan=True):
+                fail('ResultTable', 'estimates_with_a_broken_run', dict(run=run))
         cnt['evaluations'] = cnt.get('evaluations', 0) + 1
     except Exception as e:
         fail('ResultTable', type(e).__name__, repr(e))
